@@ -13,6 +13,7 @@ CONSTANTS
   Submittable <- N0Sub
   MaxSub = 1
   PNames <- P1
+  Observing = TRUE
 VIEW view
 ACTION_CONSTRAINT GenLog
 CHECK_DEADLOCK FALSE
